@@ -99,7 +99,7 @@ func (s *verifEngC) wrapHandlers() {
 			if fail := <-p.ch; fail {
 				return errors.New("verif: injected failure before " + p.kind)
 			}
-			err := h(t, tb)
+			err := verifGuardPanic(s.ctx, p.kind, which, func() error { return h(t, tb) })
 			if which == "do" && err == nil {
 				s.mu.Lock()
 				s.ranKinds = append(s.ranKinds, p.kind)
@@ -108,6 +108,22 @@ func (s *verifEngC) wrapHandlers() {
 			return err
 		}
 	})
+}
+
+// verifGuardPanic turns a panic inside a task handler (which would take the
+// daemon down) into a violation instead of the end of the simulator process.
+func verifGuardPanic(c *verifsim.Ctx, kind, which string, f func() error) (err error) {
+	defer func() {
+		if r := recover(); r != nil {
+			msg := fmt.Sprint(r)
+			if len(msg) > 300 {
+				msg = msg[:300]
+			}
+			c.Violate(c.Prop+"/handler-panic", "the %s handler of %s panics: %s", which, kind, msg)
+			err = fmt.Errorf("verif: handler panicked: %s", msg)
+		}
+	}()
+	return f()
 }
 
 func (s *verifEngC) sortedParked() []*verifCParked {
